@@ -932,67 +932,122 @@ func (c *Ctx) noNarrowing() {
 		b, ok := t.Underlying().(*types.Basic)
 		return ok && b.Info()&types.IsInteger != 0 && sizes.Sizeof(t) < 4
 	}
-	n := 0
-	for _, f := range c.modFuncs {
-		for _, call := range staticCalls(f, appendInt) {
-			n++
-			arg := call.Common().Args[1]
-			var problems []string
-			seen := map[ssa.Value]bool{}
-			var walk func(v ssa.Value, depth int)
-			walk = func(v ssa.Value, depth int) {
-				if seen[v] || depth > 12 {
+	callsOf := func(fn *ssa.Function) []ssa.CallInstruction {
+		var out []ssa.CallInstruction
+		for _, g := range c.modFuncs {
+			out = append(out, staticCalls(g, fn)...)
+		}
+		return out
+	}
+	paramIndex := func(p *ssa.Parameter) int {
+		for i, q := range p.Parent().Params {
+			if q == p {
+				return i
+			}
+		}
+		return -1
+	}
+	// a value that is a parameter handed on (through conversions at most): the function is a
+	// wrapper of the encoder as far as this value goes, and the value originates at its callers
+	passedOn := func(v ssa.Value) *ssa.Parameter {
+		for {
+			switch x := v.(type) {
+			case *ssa.Convert:
+				if b, ok := x.X.Type().Underlying().(*types.Basic); !ok || b.Info()&types.IsInteger == 0 {
+					return nil // a number of another kind made an integer here: this is where the integer originates
+				}
+				v = x.X
+			case *ssa.ChangeType:
+				v = x.X
+			case *ssa.Parameter:
+				return x
+			default:
+				return nil
+			}
+		}
+	}
+	// one obligation per place where a value is handed to the integer encoder, directly or through
+	// wrappers (a method of an encoder object that appends to its buffer is the same thing as the
+	// call it wraps): start is the argument of the call of the encoder itself, chain the calls of
+	// the wrappers from the innermost outwards, site the outermost of them
+	emit := func(start ssa.Value, chain []ssa.CallInstruction, site ssa.CallInstruction) {
+		var problems []string
+		type visit struct {
+			v ssa.Value
+			n int
+		}
+		seen := map[visit]bool{}
+		var walk func(v ssa.Value, chain []ssa.CallInstruction, depth int)
+		walk = func(v ssa.Value, chain []ssa.CallInstruction, depth int) {
+			if seen[visit{v, len(chain)}] || depth > 12 {
+				return
+			}
+			seen[visit{v, len(chain)}] = true
+			switch x := v.(type) {
+			case *ssa.Convert:
+				if narrow(x.Type()) && !narrow(x.X.Type()) {
+					problems = append(problems, fmt.Sprintf("converted from %s to the %d-bit type %s at %s", x.X.Type(), 8*sizes.Sizeof(x.Type()), x.Type(), c.pos(x.Pos())))
+				}
+				walk(x.X, chain, depth+1)
+			case *ssa.ChangeType:
+				walk(x.X, chain, depth+1)
+			case *ssa.BinOp:
+				switch x.Op {
+				case token.ADD, token.SUB, token.MUL:
+					if narrow(x.Type()) {
+						problems = append(problems, fmt.Sprintf("computed in %d-bit arithmetic (%s) at %s", 8*sizes.Sizeof(x.Type()), x.Type(), c.pos(x.Pos())))
+					}
+				}
+				walk(x.X, chain, depth+1)
+				walk(x.Y, chain, depth+1)
+			case *ssa.UnOp:
+				if x.Op == token.SUB {
+					walk(x.X, chain, depth+1)
+				}
+			case *ssa.Phi:
+				for _, e := range x.Edges {
+					walk(e, chain, depth+1)
+				}
+			case *ssa.Parameter:
+				if narrow(x.Type()) {
+					problems = append(problems, fmt.Sprintf("passed through parameter %s of the %d-bit type %s", x.Name(), 8*sizes.Sizeof(x.Type()), x.Type()))
+				}
+				idx := paramIndex(x)
+				if len(chain) > 0 && chain[0].Common().StaticCallee() == x.Parent() {
+					// inside a wrapper: the value is the one of this very call
+					if idx >= 0 && idx < len(chain[0].Common().Args) {
+						walk(chain[0].Common().Args[idx], chain[1:], depth+1)
+					}
 					return
 				}
-				seen[v] = true
-				switch x := v.(type) {
-				case *ssa.Convert:
-					if narrow(x.Type()) && !narrow(x.X.Type()) {
-						problems = append(problems, fmt.Sprintf("converted from %s to the %d-bit type %s at %s", x.X.Type(), 8*sizes.Sizeof(x.Type()), x.Type(), c.pos(x.Pos())))
-					}
-					walk(x.X, depth+1)
-				case *ssa.ChangeType:
-					walk(x.X, depth+1)
-				case *ssa.BinOp:
-					switch x.Op {
-					case token.ADD, token.SUB, token.MUL:
-						if narrow(x.Type()) {
-							problems = append(problems, fmt.Sprintf("computed in %d-bit arithmetic (%s) at %s", 8*sizes.Sizeof(x.Type()), x.Type(), c.pos(x.Pos())))
-						}
-					}
-					walk(x.X, depth+1)
-					walk(x.Y, depth+1)
-				case *ssa.UnOp:
-					if x.Op == token.SUB {
-						walk(x.X, depth+1)
-					}
-				case *ssa.Phi:
-					for _, e := range x.Edges {
-						walk(e, depth+1)
-					}
-				case *ssa.Parameter:
-					if narrow(x.Type()) {
-						problems = append(problems, fmt.Sprintf("passed through parameter %s of the %d-bit type %s", x.Name(), 8*sizes.Sizeof(x.Type()), x.Type()))
-					}
-					fn := x.Parent()
-					idx := -1
-					for i, p := range fn.Params {
-						if p == x {
-							idx = i
-						}
-					}
-					for _, g := range c.modFuncs {
-						for _, cc := range staticCalls(g, fn) {
-							if idx < len(cc.Common().Args) {
-								walk(cc.Common().Args[idx], depth+1)
-							}
-						}
+				for _, cc := range callsOf(x.Parent()) {
+					if idx >= 0 && idx < len(cc.Common().Args) {
+						walk(cc.Common().Args[idx], nil, depth+1)
 					}
 				}
 			}
-			walk(arg, 0)
-			c.check(len(problems) == 0, "NUM-NARROW", c.fname(f), "value reaches the integer encoder without passing through fewer than 32 bits", call.Pos(), "no narrowing conversion or 16-bit arithmetic on the way",
-				"an integer handed to the charstring number encoder is "+joinMax(problems, 3)+": values beyond ±32767 wrap silently")
+		}
+		walk(start, chain, 0)
+		c.check(len(problems) == 0, "NUM-NARROW", c.fname(site.Parent()), "value reaches the integer encoder without passing through fewer than 32 bits", site.Pos(), "no narrowing conversion or 16-bit arithmetic on the way",
+			"an integer handed to the charstring number encoder is "+joinMax(problems, 3)+": values beyond ±32767 wrap silently")
+	}
+	var collect func(start ssa.Value, chain []ssa.CallInstruction, cur ssa.CallInstruction, idx int)
+	collect = func(start ssa.Value, chain []ssa.CallInstruction, cur ssa.CallInstruction, idx int) {
+		if p := passedOn(cur.Common().Args[idx]); p != nil && len(chain) < 4 && p.Parent() == cur.Parent() {
+			if callers := callsOf(p.Parent()); len(callers) > 0 && paramIndex(p) >= 0 {
+				for _, k := range callers {
+					if paramIndex(p) < len(k.Common().Args) {
+						collect(start, append(append([]ssa.CallInstruction{}, chain...), k), k, paramIndex(p))
+					}
+				}
+				return
+			}
+		}
+		emit(start, chain, cur)
+	}
+	for _, f := range c.modFuncs {
+		for _, call := range staticCalls(f, appendInt) {
+			collect(call.Common().Args[1], nil, call, 1)
 		}
 	}
 	c.floor("NUM-NARROW", 10)
